@@ -33,6 +33,8 @@ Inductive bop :=
 | OInlineEnd (nres : nat)     (* inline closure End: endFuncBody, then push the result variables *)
 | OOpen                 (* startBlockStmt *)
 | OOpenFn               (* startFuncBody *)
+| OOpenV                (* startVBlockStmt: a new scope only; statements go to the enclosing block, the base stays *)
+| OCloseV               (* endVBlockStmt: the scope is restored; the stack is not truncated *)
 | OThenOpen             (* ifStmt.Then / forStmt.Then : pop the condition, open the body block *)
 | OThenPop              (* switchStmt.Then / TypeAssertThen / RangeAssignThen : pop one operand *)
 | OThenAll              (* caseStmt.Then / typeCaseStmt.Then : pop everything above base *)
@@ -66,6 +68,15 @@ Definition close_fn (s : bst) : option bst :=
   | f :: r => Some (mkSt (base s) (f_base f) (f_scope f) (f_fn f) (f_nlab f) r (nscope s) (nfn s))
   end.
 
+(* startVBlockStmt / endVBlockStmt: only the code block and the scope are saved and restored *)
+Definition open_v (s : bst) : bst :=
+  mkSt (stk s) (base s) (nscope s) (fn s) (nlab s) (mkFrame (base s) (scope s) (fn s) (nlab s) :: saved s) (S (nscope s)) (nfn s).
+Definition close_v (s : bst) : option bst :=
+  match saved s with
+  | [] => None
+  | f :: r => Some (mkSt (stk s) (base s) (f_scope f) (fn s) (nlab s) r (nscope s) (nfn s))
+  end.
+
 Definition obind {A B} (o : option A) (f : A -> option B) : option B :=
   match o with Some x => f x | None => None end.
 
@@ -83,6 +94,8 @@ Definition bstep (s : bst) (o : bop) : option bst :=
   | OInlineEnd n => obind (close_fn s) (fun s' => Some (pushn n s'))
   | OOpen => Some (open s)
   | OOpenFn => Some (open_fn s)
+  | OOpenV => Some (open_v s)
+  | OCloseV => close_v s
   | OThenOpen => obind (pop 1 s) (fun s' => Some (open s'))
   | OThenPop => pop 1 s
   | OThenAll => pop (stk s - base s) s
@@ -106,6 +119,7 @@ Inductive cstmt :=
 | CBranch
 | CLabeled (placed : bool) (s : cstmt)
 | CBlock (l : cstmts)
+| CVBlock (l : cstmts)           (* VBlock ... End: a scope without a block of its own *)
 | CIf (body : cstmts) (els : celse)
 | CFor (cond post : bool) (body : cstmts)
 | CRange (body : cstmts)
@@ -149,6 +163,7 @@ Fixpoint compile (s : cstmt) : list bop :=
   | CBranch => [ONop]
   | CLabeled placed s' => (if placed then [ONop] else []) ++ compile s'
   | CBlock l => OOpen :: compile_list l ++ [OClose]
+  | CVBlock l => OOpenV :: compile_list l ++ [OCloseV]
   | CIf body els =>
       OOpen :: cond_ops ++ [OThenOpen] ++ compile_list body ++ compile_else els ++ [OClose2]
   | CFor cond post body =>
